@@ -38,20 +38,23 @@ def keyKindOf : String → Option KeyKind
   | _ => none
 
 /-- An EC point as `asn1crypto` reads it (`ECPointBitString.to_coords`): `04 ‖ X ‖ Y`, the rest split in
-the middle.  Anything else is a `ValueError`.  The conversion back (`from_coords`, floating-point
-logarithms) is inside the model only when it provably returns the same bytes: an even number of
-coordinate bytes, both coordinates non-zero and one of them with a leading byte of at least 2. -/
+the middle; anything else, and a zero coordinate (`math.log(0)` inside `from_coords`), is a
+`ValueError` the key parser translates to `InvalidValue` (repaired: it used to escape).  The
+conversion back (`from_coords`, floating-point logarithms) is inside the model only when it provably
+returns the same bytes: an even number of coordinate bytes and one coordinate with a leading byte
+of at least 2; the remaining points (where the float rounding decides between success and an
+`OverflowError`, also an `InvalidValue` now) are `UNMODELLED`. -/
 def ecPointStatus (point : Bytes) : Except PErr Unit :=
   match point with
-  | [] => .error (.crash "ValueError")
+  | [] => .error .invalidValue
   | f :: rest =>
-    if f != 4 then .error (.crash "ValueError")
+    if f != 4 then .error .invalidValue
     else
       let k := rest.length / 2
       let x := rest.take k
       let y := rest.drop k
-      if rest.length % 2 == 0 && natOfBE x != 0 && natOfBE y != 0 &&
-          ((x.headD 0).toNat ≥ 2 || (y.headD 0).toNat ≥ 2) then .ok ()
+      if natOfBE x == 0 || natOfBE y == 0 then .error .invalidValue
+      else if rest.length % 2 == 0 && ((x.headD 0).toNat ≥ 2 || (y.headD 0).toNat ≥ 2) then .ok ()
       else .error unmodelled
 
 /-- `_parse_host_key(parser)` of the four plain key families, on the buffer after the algorithm name -/
